@@ -147,6 +147,12 @@ def cases(tier, seed):
     for name, order in fill_orders():
         for lst in lists:
             yield {"k": "write", "files": lst, "fill": name}
+    # what the user sees: file_util.py <disk> --list
+    for n in (0, 1, 2):
+        for tup in itertools.product(range(len(ALPHA)), repeat=n):
+            yield {"k": "clist", "files": [ALPHA[i] for i in tup], "fill": "default"}
+    for kind in KINDS:
+        yield {"k": "clist", "files": [fspec(kind, 77, "LISTED", "EXT", load=0x1234, exec_=0xFFFE)], "fill": "reverse"}
     # histories on ONE DiskFile object: add and list interleaved
     for tup in itertools.product((0, 1, 3, 5, 8), repeat=3):
         for ops in ("ALALAL", "AALAL", "LAALL"):
@@ -195,6 +201,9 @@ def list_image(img):
 def cell_of(case):
     if case["k"] == "hist":
         return "hist|{}|{}".format(case["ops"], ",".join(lenclass(s) for s in case["files"]))
+    if case["k"] == "clist":
+        fs = case["files"]
+        return "clist|{}|{}|{}".format(",".join(kind_of(s) for s in fs) or "none", ",".join(lenclass(s) for s in fs) or "none", case["fill"])
     if case["k"] == "frag":
         return "frag|base{}|{}|{}".format(case["base"], lenclass(case["files"][0]), case["fill"])
     if case["k"] == "write" and len(case["files"]) > 4:
@@ -293,6 +302,28 @@ def check_case(case):
         if viol:
             res["viol"] = viol
         return res
+    if case["k"] == "clist":
+        import os
+        img = b""
+        with common.scratch_dir(chdir=False) as d:
+            path = os.path.join(d, "d.dsk")
+            try:
+                img = build_image(case)
+                open(path, "wb").write(img)
+                status, printed, out = C.cli_list(path)
+                if status != 0:
+                    bad("file_util --list failed: {}".format(str(status).split()[0]), "exit 0", "{} {}".format(status, out[-100:]))
+                else:
+                    dd = C.compare_cli(case["files"], printed, "dsk")
+                    if dd:
+                        bad(*dd)
+            except Exception as e:
+                t, w = common._raiser(e)
+                bad("listing raised {}@{}".format(t, w), "listing", repr(e)[:100])
+        res["state"] = "clist:{}".format(zlib.crc32(img))
+        if viol:
+            res["viol"] = viol
+        return res
     try:
         if case["k"] == "write":
             img = build_image(case)
@@ -339,7 +370,7 @@ def check_case(case):
 def describe(tier):
     return {
         "alphabet": "file kinds ML/BASIC/ASCII/DATA (+ the four other type/flag combinations at 8 lengths) x lengths {} x content patterns x names {} x extensions {} x addresses; "
-                    "add/list interleavings on ONE DiskFile object; a file added to 6 pre-existing fragmented images (independent writer; chains such as 5>67>20, "
+                    "add/list interleavings on ONE DiskFile object; file_util --list (printed name, extension, types, addresses, length) on every list of <= 2 files and every kind; a file added to 6 pre-existing fragmented images (independent writer; chains such as 5>67>20, "
                     "66>0, 67..41 descending) x 6 lengths x 4 fill orders; 12-symbol file "
                     "alphabet for lists; 72 fill orders (default, identity, reverse, 67 rotations, odd-then-even, even-odd descending); read side: "
                     "all ordered chains of length <= 3 over granules {} x stream ends (mid-granule, exact, straddling by -1/+1/+4, two granules) "
